@@ -299,7 +299,7 @@ where
 #[cfg(feature = "verif_sched")]
 pub mod sched {
     extern crate std;
-    use alloc::boxed::Box;
+    use std::boxed::Box;
     use core::cell::RefCell;
 
     std::thread_local! {
@@ -312,6 +312,7 @@ pub mod sched {
         CHOOSER.with(|c| *c.borrow_mut() = f);
     }
 
+    #[allow(dead_code)]
     pub(crate) fn b_first() -> bool {
         // The chooser is taken out while it runs so that nested joins inside the closures
         // (which run after this returns) find it in place again.
